@@ -61,6 +61,9 @@ def worker(argv):
     try:
         from vf import util
         w.meta['call_contexts'] = {k: util.CTX[k] for k in ('plain', 'no_grad', 'set_grad_enabled(False)')}
+        c01 = sys.modules.get('vf.props.c01')
+        if c01 is not None and c01.WAVE_FORMS:
+            w.meta['wave_forms'] = dict(c01.WAVE_FORMS)
     except Exception:
         pass
     w.flush(True)
@@ -98,6 +101,12 @@ def main():
             ctxs[k] = ctxs.get(k, 0) + v
     if ctxs:
         extra['module_calls_by_autograd_context'] = ctxs
+    forms = {}
+    for m in meta:
+        for k, v in (m.get('wave_forms') or {}).items():
+            forms[k] = forms.get(k, 0) + v
+    if forms:
+        extra['dwt_modules_built_by_wave_argument_form'] = forms
     if hasattr(mod, 'extra_cov'):
         extra.update(mod.extra_cov(results, meta))
     rc = core.finish(prop, tier, seed, results, t0, mod.RULE, mod.ASSUMPTIONS,
